@@ -37,35 +37,35 @@ theorem Key.ofText_text (k : Key) (h : k.wf = true) : Key.ofText (Key.text k) = 
   | _ => rfl
 
 /-! ## numbers -/
-theorem natDigits_lt (n : Nat) (h : n < 10) : natDigits n = [48 + n] := by
-  rw [natDigits]; simp [h]
-theorem natDigits_ge (n : Nat) (h : ¬ n < 10) : natDigits n = natDigits (n / 10) ++ [48 + n % 10] := by
-  rw [natDigits]; simp [h]
+theorem natDigits_lt (n : Nat) (h : n < 10) : jNatDigits n = [48 + n] := by
+  rw [jNatDigits]; simp [h]
+theorem natDigits_ge (n : Nat) (h : ¬ n < 10) : jNatDigits n = jNatDigits (n / 10) ++ [48 + n % 10] := by
+  rw [jNatDigits]; simp [h]
 
-theorem digitsVal_snoc (ds : List Nat) (d : Nat) : digitsVal (ds ++ [d]) = digitsVal ds * 10 + (d - 48) := by
-  simp [digitsVal, List.foldl_append]
+theorem digitsVal_snoc (ds : List Nat) (d : Nat) : jDigitsVal (ds ++ [d]) = jDigitsVal ds * 10 + (d - 48) := by
+  simp [jDigitsVal, List.foldl_append]
 
-theorem digitsVal_natDigits (n : Nat) : digitsVal (natDigits n) = n := by
+theorem jDigitsVal_natDigits (n : Nat) : jDigitsVal (jNatDigits n) = n := by
   induction n using Nat.strongRecOn with
   | ind n ih =>
     by_cases h : n < 10
-    · rw [natDigits_lt n h]; simp [digitsVal]
+    · rw [natDigits_lt n h]; simp [jDigitsVal]
     · rw [natDigits_ge n h, digitsVal_snoc, ih (n / 10) (by omega)]; omega
 
-theorem natDigits_digits (n : Nat) : ∀ c ∈ natDigits n, isDigit c = true := by
+theorem natDigits_digits (n : Nat) : ∀ c ∈ jNatDigits n, jIsDigit c = true := by
   induction n using Nat.strongRecOn with
   | ind n ih =>
     by_cases h : n < 10
     · rw [natDigits_lt n h]; intro c hc
       simp only [List.mem_singleton] at hc; subst hc
-      simp only [isDigit, Bool.and_eq_true, decide_eq_true_eq]; omega
+      simp only [jIsDigit, Bool.and_eq_true, decide_eq_true_eq]; omega
     · rw [natDigits_ge n h]; intro c hc
       rcases List.mem_append.mp hc with hc | hc
       · exact ih (n / 10) (by omega) c hc
       · simp only [List.mem_singleton] at hc; subst hc
-        simp only [isDigit, Bool.and_eq_true, decide_eq_true_eq]; omega
+        simp only [jIsDigit, Bool.and_eq_true, decide_eq_true_eq]; omega
 
-theorem natDigits_head (n : Nat) (hn : 0 < n) : ∃ d ds, natDigits n = d :: ds ∧ d ≠ 48 := by
+theorem natDigits_head (n : Nat) (hn : 0 < n) : ∃ d ds, jNatDigits n = d :: ds ∧ d ≠ 48 := by
   induction n using Nat.strongRecOn with
   | ind n ih =>
     by_cases h : n < 10
@@ -74,7 +74,7 @@ theorem natDigits_head (n : Nat) (hn : 0 < n) : ∃ d ds, natDigits n = d :: ds 
       exact ⟨d, ds ++ [48 + n % 10], by rw [natDigits_ge n h, hd]; rfl, hne⟩
 
 theorem natDigits_shape (n : Nat) :
-    ∃ d ds, natDigits n = d :: ds ∧ isDigit d = true ∧ ¬(d = 48 ∧ ds ≠ []) := by
+    ∃ d ds, jNatDigits n = d :: ds ∧ jIsDigit d = true ∧ ¬(d = 48 ∧ ds ≠ []) := by
   by_cases hn : n = 0
   · subst hn; exact ⟨48, [], natDigits_lt 0 (by omega), by decide, by simp⟩
   · obtain ⟨d, ds, hd, hne⟩ := natDigits_head n (by omega)
@@ -85,21 +85,21 @@ theorem natDigits_shape (n : Nat) :
 /-- what may follow a number: nothing that would continue it -/
 def numEnd : List Nat → Bool
   | [] => true
-  | c :: _ => !isDigit c && c != 46 && c != 101 && c != 69
+  | c :: _ => !jIsDigit c && c != 46 && c != 101 && c != 69
 
-theorem takeDigits_append (ds rest : List Nat) (hds : ∀ c ∈ ds, isDigit c = true)
+theorem takeDigits_append (ds rest : List Nat) (hds : ∀ c ∈ ds, jIsDigit c = true)
     (hrest : numEnd rest = true) : takeDigits (ds ++ rest) = (ds, rest) := by
   induction ds with
   | nil =>
     cases rest with
     | nil => rfl
     | cons c r =>
-      have : isDigit c = false := by
+      have : jIsDigit c = false := by
         simp only [numEnd, Bool.and_eq_true, Bool.not_eq_true'] at hrest
         exact hrest.1.1.1
       simp [takeDigits, this]
   | cons d ds ih =>
-    have hd : isDigit d = true := hds d (by simp)
+    have hd : jIsDigit d = true := hds d (by simp)
     have := ih (fun c hc => hds c (List.mem_cons_of_mem _ hc))
     simp [takeDigits, hd, this]
 
@@ -122,19 +122,19 @@ theorem parseExp_numEnd (rest : List Nat) (h : numEnd rest = true) : parseExp re
     simp [parseExp, this]
 
 theorem parseNumber_natDigits (n : Nat) (rest : List Nat) (h : numEnd rest = true) :
-    parseNumber (natDigits n ++ rest) = some (Json.num n, rest) := by
+    parseNumber (jNatDigits n ++ rest) = some (Json.num n, rest) := by
   obtain ⟨d, ds, hd, hdig, hz⟩ := natDigits_shape n
   have h45 : d ≠ 45 := by
-    simp only [isDigit, Bool.and_eq_true, decide_eq_true_eq] at hdig; omega
-  have htd := takeDigits_append (natDigits n) rest (natDigits_digits n) h
-  have hint : parseInt (natDigits n ++ rest) = some (natDigits n, rest) := by
+    simp only [jIsDigit, Bool.and_eq_true, decide_eq_true_eq] at hdig; omega
+  have htd := takeDigits_append (jNatDigits n) rest (natDigits_digits n) h
+  have hint : parseInt (jNatDigits n ++ rest) = some (jNatDigits n, rest) := by
     unfold parseInt
     rw [htd, hd]
     simp only [hz, if_false]
-  have hbody : parseNumberBody false (natDigits n ++ rest) = some (Json.num n, rest) := by
+  have hbody : parseNumberBody false (jNatDigits n ++ rest) = some (Json.num n, rest) := by
     unfold parseNumberBody
     rw [hint]
-    simp only [parseFrac_numEnd rest h, parseExp_numEnd rest h, digitsVal_natDigits]
+    simp only [parseFrac_numEnd rest h, parseExp_numEnd rest h, jDigitsVal_natDigits]
     rfl
   rw [← hbody, hd]
   simp [parseNumber, h45]
@@ -216,12 +216,12 @@ theorem parseString_print (s : List Nat) (hs : s.all isScalar = true) (rest : Li
 
 /-! ## values -/
 
-theorem skipWs_cons (c : Nat) (r : List Nat) (h : isWs c = false) : skipWs (c :: r) = c :: r := by
+theorem skipWs_cons (c : Nat) (r : List Nat) (h : jIsWs c = false) : skipWs (c :: r) = c :: r := by
   simp [skipWs, h]
 
 /-- a printed value starts with a character that is neither whitespace nor a closing bracket -/
 theorem printJson_head (v : Json) (rest : List Nat) :
-    ∃ c tl, printJson v ++ rest = c :: tl ∧ isWs c = false ∧ c ≠ 93 ∧ c ≠ 125 := by
+    ∃ c tl, printJson v ++ rest = c :: tl ∧ jIsWs c = false ∧ c ≠ 93 ∧ c ≠ 125 := by
   cases v with
   | null => exact ⟨110, _, by simp only [printJson]; rfl, by decide, by decide, by decide⟩
   | bool b =>
@@ -230,13 +230,13 @@ theorem printJson_head (v : Json) (rest : List Nat) :
     · exact ⟨116, _, by simp only [printJson]; rfl, by decide, by decide, by decide⟩
   | num n =>
     obtain ⟨d, ds, hd, hdig, _⟩ := natDigits_shape n
-    simp only [isDigit, Bool.and_eq_true, decide_eq_true_eq] at hdig
+    simp only [jIsDigit, Bool.and_eq_true, decide_eq_true_eq] at hdig
     refine ⟨d, ds ++ rest, by simp only [printJson, hd]; rfl, ?_, by omega, by omega⟩
     have h1 : d ≠ 32 := by omega
     have h2 : d ≠ 9 := by omega
     have h3 : d ≠ 10 := by omega
     have h4 : d ≠ 13 := by omega
-    simp [isWs, h1, h2, h3, h4]
+    simp [jIsWs, h1, h2, h3, h4]
   | float => exact ⟨45, _, by simp only [printJson]; rfl, by decide, by decide, by decide⟩
   | str s => exact ⟨34, _, by simp only [printJson, printStr]; rfl, by decide, by decide, by decide⟩
   | arr xs => exact ⟨91, _, by simp only [printJson]; rfl, by decide, by decide, by decide⟩
@@ -264,7 +264,7 @@ theorem parseElems_print (pv : List Nat → Option (Json × List Nat)) (xs : Lis
       have h1 := hpv x (by simp) (printTail [] ++ rest) (numEnd_printTail [] rest)
       rw [List.append_assoc]
       simp only [parseElems, h1]
-      simp [printTail, skipWs, isWs]
+      simp [printTail, skipWs, jIsWs]
   | cons y ys ih =>
     intro x n rest hn hpv
     cases n with
@@ -311,7 +311,7 @@ theorem parseMembers_print (pv : List Nat → Option (Json × List Nat)) (kvs : 
         (hx _ (numEnd_printMTail [] rest))
       simp only [List.append_assoc, List.cons_append]
       simp only [parseMembers, h1]
-      simp [printMTail, skipWs, isWs]
+      simp [printMTail, skipWs, jIsWs]
   | cons kv kvs ih =>
     obtain ⟨k', x'⟩ := kv
     intro k x n rest hn hpv
@@ -334,11 +334,11 @@ theorem parseMembers_print (pv : List Nat → Option (Json × List Nat)) (kvs : 
 
 theorem parseValue_null (fuel : Nat) (rest : List Nat) :
     parseValue (fuel + 1) (printJson .null ++ rest) = some (.null, rest) := by
-  simp [printJson, parseValue, skipWs, isWs, isDigit, dropPrefix]
+  simp [printJson, parseValue, skipWs, jIsWs, jIsDigit, dropPrefix]
 
 theorem parseValue_bool (fuel : Nat) (b : Bool) (rest : List Nat) :
     parseValue (fuel + 1) (printJson (.bool b) ++ rest) = some (.bool b, rest) := by
-  cases b <;> simp [printJson, parseValue, skipWs, isWs, isDigit, dropPrefix]
+  cases b <;> simp [printJson, parseValue, skipWs, jIsWs, jIsDigit, dropPrefix]
 
 theorem parseValue_num (fuel n : Nat) (rest : List Nat) (h : numEnd rest = true) :
     parseValue (fuel + 1) (printJson (.num n) ++ rest) = some (.num n, rest) := by
@@ -356,7 +356,7 @@ theorem parseValue_str (fuel : Nat) (s : List Nat) (hs : s.all isScalar = true) 
     parseValue (fuel + 1) (printJson (.str s) ++ rest) = some (.str s, rest) := by
   simp only [printJson, printStr, List.cons_append, parseValue]
   rw [skipWs_cons 34 _ (by decide)]
-  simp [isDigit, parseString_print s hs]
+  simp [jIsDigit, parseString_print s hs]
 
 theorem parseValue_arr (fuel : Nat) (xs : List Json) (rest : List Nat) (hn : xs.length ≤ fuel)
     (hpv : ∀ y ∈ xs, ∀ r, numEnd r = true → parseValue fuel (printJson y ++ r) = some (y, r)) :
@@ -364,7 +364,7 @@ theorem parseValue_arr (fuel : Nat) (xs : List Json) (rest : List Nat) (hn : xs.
   simp only [printJson, List.cons_append, parseValue]
   rw [skipWs_cons 91 _ (by decide)]
   cases xs with
-  | nil => simp [isDigit, printElems, skipWs, isWs]
+  | nil => simp [jIsDigit, printElems, skipWs, jIsWs]
   | cons x xs =>
     obtain ⟨c, tl, hc, hws, h93, _⟩ := printJson_head x (printTail xs ++ rest)
     have hl := parseElems_print (parseValue fuel) xs x fuel rest
@@ -372,7 +372,7 @@ theorem parseValue_arr (fuel : Nat) (xs : List Json) (rest : List Nat) (hn : xs.
     simp only [printElems, List.append_assoc] at hl ⊢
     rw [hc] at hl ⊢
     rw [skipWs_cons c tl hws]
-    simp [isDigit, h93, hl]
+    simp [jIsDigit, h93, hl]
 
 theorem parseValue_obj (fuel : Nat) (kvs : List (Key × Json)) (rest : List Nat) (hn : kvs.length ≤ fuel)
     (hpv : ∀ kv ∈ kvs, kv.1.wf = true ∧ kv.1.text.all isScalar = true ∧
@@ -381,14 +381,14 @@ theorem parseValue_obj (fuel : Nat) (kvs : List (Key × Json)) (rest : List Nat)
   simp only [printJson, List.cons_append, parseValue]
   rw [skipWs_cons 123 _ (by decide)]
   cases kvs with
-  | nil => simp [isDigit, printMembers, skipWs, isWs]
+  | nil => simp [jIsDigit, printMembers, skipWs, jIsWs]
   | cons kv kvs =>
     obtain ⟨k, x⟩ := kv
     have hl := parseMembers_print (parseValue fuel) kvs k x fuel rest
       (by simp only [List.length_cons] at hn; omega) hpv
     simp only [printMembers, printStr, List.append_assoc, List.cons_append] at hl ⊢
     rw [skipWs_cons 34 _ (by decide)]
-    simp [isDigit, hl]
+    simp [jIsDigit, hl]
 
 
 /-! ### lengths: the fuel `parseJson` gives is enough -/
@@ -805,8 +805,8 @@ example : printJson (.obj [(.stop, .str [34, 92, 8, 12, 10, 13, 9, 0, 31, 127, 2
     cp "{\"end\":\"\\\"\\\\\\b\\f\\n\\r\\t\\u0000\\u001f\x7fé😀\",\"k\":[null,true]}" := by decide +kernel
 example : printJson (.arr []) = cp "[]" ∧ printJson (.obj []) = cp "{}" ∧ printJson .float = cp "-0.5" := by
   decide +kernel
-example : natDigits 18446744073709551617 = cp "18446744073709551617" := by
-  simp [natDigits]; decide +kernel
+example : jNatDigits 18446744073709551617 = cp "18446744073709551617" := by
+  simp [jNatDigits]; decide +kernel
 /-- without the side condition the round trip fails: `other "end"` comes back as `stop` -/
 example : parseJson (printJson (.obj [(.other (cp "end"), .null)])) = some (.obj [(.stop, .null)]) := by
   decide +kernel
